@@ -85,6 +85,8 @@ class Check:
                     self.known_hits.append(key)
                     print(f'KNOWN-FINDING: property={self.pid} {e.get("what", what)}', flush=True)
                 return False
+        if any(v[0] == key for v in self.violations):
+            return True
         path = self.write_replay(key, replay)
         self.violations.append((key, what, path))
         print(f'VIOLATION property={self.pid} replay={path}', flush=True)
